@@ -603,6 +603,11 @@ class Fn:
             self.ret(n)
         elif k == 'BreakStmt':
             self.emit('break;')
+        elif k == 'ContinueStmt':
+            if not getattr(self, 'cont_stack', None):
+                self.unsupported('continue outside a loop', n)
+            self.cont_stack[-1][1] = True
+            self.emit('goto %s;' % self.cont_stack[-1][0])
         elif k == 'NullStmt':
             self.emit(';')
         elif k == 'CXXTryStmt':
@@ -646,7 +651,15 @@ class Fn:
             self.mark(cond)
             c = self.rv(cond)
             self.emit('if (!(%s)) break;' % c)
+        # `continue` jumps to the increment (the loop is a while(1) with the increment at the end of its body)
+        if not hasattr(self, 'cont_stack'):
+            self.cont_stack = []
+        clabel = 'vf_cont_%d' % ordn
+        self.cont_stack.append([clabel, False])
         self.block(body)
+        used = self.cont_stack.pop()[1]
+        if used:
+            self.emit('%s: ;' % clabel)
         if inc:
             self.mark(inc)
             self.expr_stmt(inc)
@@ -707,11 +720,17 @@ class Fn:
         cn = name
         if v.get('storageClass') == 'static':
             # shared mutable state (C18): kept as a C static so that every write to it is a frame violation
-            if t.kind not in ('scalar',) and not (t.kind == 'array' and t.elem.kind == 'scalar'):
+            if t.kind not in ('scalar', 'vec') and not (t.kind == 'array' and t.elem.kind == 'scalar'):
                 self.unsupported('static local variable of type %s' % t.kind, v)
             cn = 'vf_static_%s_%s' % (self.lname, name)
             self.names[v['id']] = cn
             init = v.get('inner', [None])[0] if v.get('inner') else None
+            if t.kind == 'vec':
+                # a default-constructed static vector: the zero-initialised C static (data = 0, size = 0) is the empty vector
+                if init is not None and not (init.get('kind') == 'CXXConstructExpr' and not init.get('inner')):
+                    self.unsupported('static local vector with an initialiser', v)
+                self.p.statics.append('%s %s;' % (t.ctype(), cn))
+                return
             if t.kind == 'array':
                 self.p.statics.append('%s %s[%d];' % (t.elem.ctype(), cn, t.c))
             else:
@@ -835,6 +854,16 @@ class Fn:
             return cstr_literal(n['value'])
         if k == 'CXXThisExpr':
             return 'self'
+        if k == 'ConditionalOperator':
+            # scalar c ? a : b whose arms need no hoisted statement (no call, no temporary): a C conditional expression;
+            # anything else stays outside the rule set
+            c = self.rv(n['inner'][0])
+            mark = len(self.lines)
+            a = self.rv(n['inner'][1])
+            b = self.rv(n['inner'][2])
+            if len(self.lines) != mark:
+                self.unsupported('conditional operator whose arms need statements', n)
+            return '((%s) ? (%s) : (%s))' % (c, a, b)
         if k == 'ImplicitCastExpr' or k in ('CXXStaticCastExpr', 'CXXFunctionalCastExpr', 'CStyleCastExpr',
                                             'CXXReinterpretCastExpr', 'CXXConstCastExpr'):
             return self.cast(n)
@@ -1618,6 +1647,8 @@ class Fn:
         tag = vt.elem.tag()
         rp = self.paren(r)
         args = self.explicit_args(args)
+        if name == 'data' and not args and vt.elem.kind == 'scalar':
+            return '(%s->data)' % rp
         if name == 'size' and not args:
             return '%s->size' % rp
         if name == 'empty' and not args:
